@@ -16,7 +16,7 @@ RULE = ("altitude grid -1400..36000 ft (50 ft quick / 5 ft thorough) + random al
         "altitudes; a case = (clause, inputs); non-trivial unless it is the sea-level standard atmosphere itself")
 MUST_OBSERVE = ["isa_points", "cross_pairs", "station_altitude_exact", "seam_checks", "mono_pressure", "mono_temperature",
                 "mono_humidity_fraction", "mono_humidity_percent", "humidity_equivalence", "humidity_rejected",
-                "vacuum_queries", "nonstandard_station_seam"]
+                "vacuum_queries", "nonstandard_station_seam", "history_cases"]
 ASSUMPTIONS = ["R-ISA: T0 288.15 K, P0 101325 Pa, L 6.5 K/km, g0 9.80665, M 0.0289644, R* 8.31432, gamma 1.4, rho0 1.225 kg/m3",
                "humidity pairs for monotonicity are given in one convention (both fractions in [0,1] or both percents in (1,100])"]
 T0, P0, L, G0, M, R, GAMMA, RHO0 = 288.15, 101325.0, 0.0065, 9.80665, 0.0289644, 8.31432, 1.4, 1.225
@@ -200,9 +200,52 @@ def check_vacuum(ctx, case):
             ctx.violation("vacuum.mach", f"Vacuum speed of sound {m!r} at {q} ft", case)
 
 
+def check_history(ctx, case):
+    """A standard atmosphere requested again after an earlier instance was modified / after the preferred unit changed."""
+    from py_ballisticcalc import PreferredUnits, Unit, Shot, Weapon, Ammo, DragModel
+    import py_ballisticcalc as pb
+    reset_globals()
+    ctx.case(case, nontrivial=True, sample=True)
+    ctx.count("history_cases")
+    h = case["alt_ft"]
+    arg = Distance.Foot(h) if case["explicit"] else h
+    if not case["explicit"]:
+        PreferredUnits.distance = Unit.Foot
+    first = Atmo.icao(arg) if case["via"] == "icao" else Atmo.standard(arg)
+    first.humidity = case["humidity"]            # public setter on the caller's own instance
+    if case.get("shot"):
+        Shot(Weapon(), Ammo(DragModel(0.3, pb.TableG7), Velocity.FPS(2500))).atmo.humidity = case["humidity"]
+    again = Atmo.icao(Distance.Foot(h) if case["explicit"] else h)
+    t, p, rho, c = isa(h)
+    for name, got, want in (("density", again.density_ratio * RHO0, rho), ("temperature_K", again.temperature >> Temperature.Kelvin, t),
+                            ("speed_of_sound", again.mach >> Velocity.MPS, c), ("humidity", again.humidity + 1.0, 1.0)):
+        if not rel(got, want) <= REL:
+            ctx.violation("history.modified-instance." + name, f"icao({h} ft) requested after the humidity of an earlier instance was set to "
+                                                               f"{case['humidity']}: {name} = {got!r}, ISA {want!r}", case)
+    default_atmo = Shot(Weapon(), Ammo(DragModel(0.3, pb.TableG7), Velocity.FPS(2500))).atmo
+    if not rel(default_atmo.density_ratio * RHO0, isa(0.0)[2]) <= REL:
+        ctx.violation("history.default-shot-atmosphere", f"default Shot().atmo has density ratio {default_atmo.density_ratio!r} after earlier instances were modified", case)
+    # same bare number, other preferred distance unit
+    x = case["bare"]
+    PreferredUnits.distance = Unit.Foot
+    Atmo.icao(x)
+    PreferredUnits.distance = Unit.Meter
+    m = Atmo.icao(x)
+    if -1400 <= x / FT <= 36000:
+        want = isa(x / FT)[2]
+        if not rel(m.density_ratio * RHO0, want) <= REL:
+            ctx.violation("history.bare-altitude-unit", f"icao({x}) under preferred unit metre (after the same call under foot) has density "
+                                                        f"{m.density_ratio * RHO0!r}, ISA at {x} m = {want!r}", case)
+    reset_globals()
+
+
 def run(ctx):
     rng = ctx.rng
     reset_globals()
+    for _ in range(ctx.share(200 if ctx.tier == "quick" else 20000)):
+        check_history(ctx, {"clause": "history", "alt_ft": rng.choice([0.0, round(rng.uniform(-1000, 30000), 0)]), "explicit": rng.random() < 0.6,
+                            "via": rng.choice(["icao", "standard"]), "humidity": rng.choice([100, 50, 0.8]), "shot": rng.random() < 0.5,
+                            "bare": round(rng.uniform(100, 9000), 0)})
     step = 50 if ctx.tier == "quick" else 5
     grid = [float(h) for h in range(-1400, 36001, step)]
     for h in ctx.my(grid):
@@ -270,3 +313,5 @@ def replay(ctx, case):
         check_humidity(ctx, case)
     elif c == "vacuum":
         check_vacuum(ctx, case)
+    elif c == "history":
+        check_history(ctx, case)
